@@ -263,5 +263,96 @@ func Extract() *fx.Group {
 	}
 	g.Nat("xattrAssigns", int64(assigns))
 	g.Bool("xattrKeepEmpty", assigns > 0 && guarded < assigns)
+	deepFacts(g, ef)
 	return g
+}
+
+// deepFacts: pins for the mirrors of File.Read (file.go), groupDescriptorFromBytes and readInodeRaw.
+func deepFacts(g *fx.Group, ef *ast.File) {
+	ff := fx.Parse("filesystem/ext4/file.go")
+	gf := fx.Parse("filesystem/ext4/groupdescriptors.go")
+	// --- File.Read: the skip test in front of the extent loop uses <=, and holes are cleared in two places
+	rd := fx.FindFunc(ff, "File", "Read")
+	skipLe, foundSkip := false, false
+	clears := 0
+	if rd == nil {
+		g.Missing("File.Read")
+	} else {
+		ast.Inspect(rd.Body, func(n ast.Node) bool {
+			switch x := n.(type) {
+			case *ast.IfStmt:
+				if len(x.Body.List) == 1 {
+					if br, ok := x.Body.List[0].(*ast.BranchStmt); ok && br.Tok == token.CONTINUE && !foundSkip {
+						if be, ok := x.Cond.(*ast.BinaryExpr); ok {
+							foundSkip = true
+							skipLe = be.Op == token.LEQ
+						}
+					}
+				}
+			case *ast.CallExpr:
+				if id, ok := x.Fun.(*ast.Ident); ok && id.Name == "clear" {
+					clears++
+				}
+			}
+			return true
+		})
+		if !foundSkip {
+			g.Missing("File.Read skip test")
+		}
+	}
+	g.Bool("readSkipLe", skipLe)
+	g.Nat("readClears", int64(clears))
+	// --- groupDescriptorFromBytes: the descriptor size at which the high halves are read
+	gfb := fx.FindFunc(gf, "", "groupDescriptorFromBytes")
+	wide := int64(-1)
+	if gfb != nil {
+		ast.Inspect(gfb.Body, func(n ast.Node) bool {
+			is, ok := n.(*ast.IfStmt)
+			if !ok || wide >= 0 {
+				return wide < 0
+			}
+			if be, ok := is.Cond.(*ast.BinaryExpr); ok && be.Op == token.EQL && fx.Src(be.X) == "gdSize" {
+				if v, ok := eval(be.Y, map[string]int64{}); ok {
+					wide = v
+				}
+			}
+			return true
+		})
+	}
+	if wide < 0 {
+		g.Missing("groupDescriptorFromBytes wide size")
+		wide = 0
+	}
+	g.Nat("gdWideSize", wide)
+	// --- readInodeRaw: group by division, slot by remainder of (inodeNumber - 1), 32-bit slot offset
+	rir := fx.FindFunc(ef, "FileSystem", "readInodeRaw")
+	if rir == nil {
+		g.Missing("readInodeRaw")
+	}
+	bg := fx.AssignRHS(rir, "bg")
+	oi := fx.AssignRHS(rir, "offsetInode")
+	of := fx.AssignRHS(rir, "offset")
+	isOp := func(e ast.Expr, op token.Token) bool {
+		be, ok := e.(*ast.BinaryExpr)
+		return ok && be.Op == op && strings.Contains(fx.Src(be.X), "inodeNumber - 1") && fx.Src(be.Y) == "inodesPerGroup"
+	}
+	g.Bool("inodeGroupByDiv", bg != nil && isOp(bg, token.QUO))
+	g.Bool("inodeSlotByMod", oi != nil && isOp(oi, token.REM))
+	w := int64(0)
+	if of != nil {
+		if be, ok := of.(*ast.BinaryExpr); ok && be.Op == token.MUL {
+			w = fx.ConvWidth(be.Y)
+		}
+	}
+	g.Nat("inodeSlotOffsetWidth", w)
+	// --- extentLeafNode.blocks: does it refuse unwritten extents (an error return inside a loop over the extents)?
+	xf := fx.Parse("filesystem/ext4/extent.go")
+	lb := fx.FindFunc(xf, "extentLeafNode", "blocks")
+	refuses := false
+	if lb == nil {
+		g.Missing("extentLeafNode.blocks")
+	} else {
+		refuses = refusesOn(lb, "count")
+	}
+	g.Bool("extentRefusesUnwritten", refuses)
 }
